@@ -6,6 +6,10 @@
 //!   c01 coalesce <off:len,off:len,…>         real BlobLocations::coalesce chain → `ok <off>:<len>:<n> …`
 //!   c01 link <target-hex>                   real NodeType::from_link / to_link (+ serde_json round trip of the node) →
 //!                                           `ok <raw present 0|1> <to_link bytes> <stored string bytes, `-` if raw present>`
+//!   c01 lookup <name-hex,…> <query-hex,…>    ONE directory `d` holding (empty) files of these names is backed up; per query the real
+//!                                           `Tree::node_from_path` (`Repository::node_from_path(tree, src/d/<query>)`) → `f<index of the
+//!                                           node in the stored tree>` | `n` (not found); model: `Snapshot.findNode` (linear search on
+//!                                           un-escaped names) over the byte-sorted names after `toSNode`/`fromSNode` (escape → un-escape)
 //!   c01 e2e <cfg…> [opt…] <entries…> <seed>  real init + backup of an in-memory tree, then every way of reading the
 //!                                           snapshot back is compared with the source (oracles); observation = per
 //!                                           entry `path:kind[:len:chunk-lengths]`, which the model predicts with the
@@ -1374,6 +1378,63 @@ fn big(cfg: &Cfg, shape: &str, n: u64, seed: u64) -> String {
     format!("ok {shape} {nfiles} chunks {chunks}")
 }
 
+/// `c01 lookup`: by-path lookups in ONE directory (see the module comment)
+fn lookup(names: &[Vec<u8>], queries: &[Vec<u8>]) -> String {
+    let cfg = Cfg { version: 2, comp: Some(0), fixed: true, avg: 4096, min: 4096, max: 4096, dp: None, tp: None };
+    let h = match init_with(&cfg, None) {
+        Ok(h) => h,
+        Err(e) => return format!("init-{e}"),
+    };
+    let ents: Vec<SrcEntry> = names.iter().map(|n| SrcEntry::file(&[b"d", n.as_slice()], b"")).collect();
+    let src = MemSource::new(ents);
+    let repo = match open_nc(&h).and_then(Repository::to_indexed_ids) {
+        Ok(r) => r,
+        Err(e) => return errkind(&e),
+    };
+    let snap = match repo.archive(&BackupOptions::default(), &src, SnapshotFile::default(), &[PathBuf::from(SRC_ROOT)]) {
+        Ok(s) => s,
+        Err(e) => return format!("backup-{}", errkind(&e)),
+    };
+    drop(repo);
+    let repo = match open_nc(&h).and_then(Repository::to_indexed) {
+        Ok(r) => r,
+        Err(e) => return errkind(&e),
+    };
+    // the stored tree of `d`: its nodes in stored order
+    let d = match repo.node_from_path(snap.tree, Path::new("src/d")) {
+        Ok(n) => n,
+        Err(e) => return format!("oracle-fail:lookup-dir-{}", errkind(&e)),
+    };
+    let Some(sub) = d.subtree else { return "oracle-fail:lookup-dir-without-subtree".into() };
+    let stored: Vec<Vec<u8>> = match repo.get_tree(&sub) {
+        Ok(t) => t.nodes.iter().map(|n| n.name().as_bytes().to_vec()).collect(),
+        Err(e) => return format!("oracle-fail:lookup-tree-{}", errkind(&e)),
+    };
+    let mut sorted = names.to_vec();
+    sorted.sort();
+    if stored != sorted {
+        return "oracle-fail:lookup-tree-not-sorted-by-name".into();
+    }
+    let mut out = Vec::new();
+    for q in queries {
+        let mut p = PathBuf::from("src/d");
+        p.push(os(q));
+        match repo.node_from_path(snap.tree, &p) {
+            Ok(n) => match stored.iter().position(|x| x.as_slice() == n.name().as_bytes()) {
+                Some(i) if n.name().as_bytes() == q.as_slice() => out.push(format!("f{i}")),
+                _ => return format!("oracle-fail:lookup-other-node:{}", hex(q)),
+            },
+            Err(_) => {
+                if names.contains(q) {
+                    return format!("oracle-fail:lookup-listed-name-not-found:{}", hex(q));
+                }
+                out.push("n".into());
+            }
+        }
+    }
+    format!("ok {}", out.join(" "))
+}
+
 fn run_e2e(rest: &[&str], local: bool) -> String {
     let ncfg = 8;
     if rest.len() < ncfg + 2 {
@@ -1456,6 +1517,16 @@ pub fn exec(toks: &[&str]) -> String {
                 }
                 let s = if linktarget_raw.is_some() { "-".to_string() } else { hex(linktarget.as_bytes()) };
                 format!("ok {} {} {s}", u8::from(linktarget_raw.is_some()), hex(&back))
+            }
+            ["lookup", names, queries] => {
+                let list = |t: &str| -> Option<Vec<Vec<u8>>> { t.split(',').map(unhex).collect() };
+                let (Some(names), Some(queries)) = (list(names), list(queries)) else { return "bad-op".into() };
+                let ok = |c: &Vec<u8>| !(c.is_empty() || c.len() > 255 || c == b"." || c == b".." || c.contains(&b'/') || c.contains(&0));
+                let distinct: std::collections::BTreeSet<&Vec<u8>> = names.iter().collect();
+                if !names.iter().chain(&queries).all(ok) || distinct.len() != names.len() {
+                    return "bad-op".into();
+                }
+                lookup(&names, &queries)
             }
             ["ixr", rest @ ..] => ixr::exec(rest),
             ["time", rest @ ..] => time::exec(rest),
@@ -1634,6 +1705,53 @@ pub fn generate(thorough: bool, rng: &mut Rng, ops: &mut Vec<String>, stats: &mu
         }
         stats.hit(if std::str::from_utf8(&t).is_ok() { "link.utf8" } else { "link.non-utf8" });
         ops.push(format!("c01 link {}", hex(&t)));
+    }
+    // by-path lookups in one directory: names around the bytes that escaping changes (`"`, `\\`, controls, invalid UTF-8) next to
+    // plain neighbours, so that the order of the escaped strings differs from the order of the names
+    const LK: [&[u8]; 24] = [
+        b"a!", b"a\"z", b"a#", b"m", b"z", b"\xff", b"caf\xe9", b"cafe", b"caff", b"Z", b"\\", b"a", b"tab\there", b"tab", b"tabz", b"\x01", b"0", b"~",
+        b"a\\b", b"a]b", b"a[b", b"\xc3\xa9", b"\xc3", b"x\ny",
+    ];
+    for i in 0..(if thorough { 1500 } else { 150 }) {
+        let k = 2 + rng.below(if i % 4 == 0 { 30 } else { 8 }) as usize;
+        let mut names: Vec<Vec<u8>> = Vec::new();
+        for _ in 0..k {
+            let n = match rng.below(4) {
+                0 => rand_name(rng),
+                1 => {
+                    // a neighbour of a name already there: one byte changed to an escape-relevant or plain one / appended
+                    let mut n = if names.is_empty() { b"a".to_vec() } else { rng.pick(&names).clone() };
+                    let b = *rng.pick(&[b'"', b'\\', b'!', b'#', b'[', b']', b'\t', b'\n', 0x7f, 0xff, 0x80, b'a', b'Z', b'~', b' ']);
+                    if rng.chance(1, 2) || n.is_empty() { n.push(b) } else { let j = rng.below(n.len() as u64) as usize; n[j] = b }
+                    n
+                }
+                _ => rng.pick(&LK).to_vec(),
+            };
+            if n.len() <= 255 && n != b"." && n != b".." && !names.contains(&n) {
+                names.push(n);
+            }
+        }
+        let mut queries = names.clone();
+        for n in names.clone() {
+            if rng.chance(1, 3) {
+                let e = rustic_core::verif::node::escape(&n).into_bytes();
+                if !queries.contains(&e) {
+                    queries.push(e);
+                }
+            }
+        }
+        for _ in 0..2 {
+            let n = rand_name(rng);
+            if !queries.contains(&n) && n != b"." && n != b".." {
+                queries.push(n);
+            }
+        }
+        stats.hit("lookup");
+        if names.iter().any(|n| rustic_core::verif::node::escape(n).as_bytes() != n.as_slice()) {
+            stats.hit("lookup.dir-with-escaped-name");
+        }
+        let l = |v: &[Vec<u8>]| v.iter().map(|x| hex(x)).collect::<Vec<_>>().join(",");
+        ops.push(format!("c01 lookup {} {}", l(&names), l(&queries)));
     }
     // one backup with more blobs than the indexer collects before it writes an index file
     let max_count = rustic_core::verif::indexer::MAX_COUNT as u64;
